@@ -12,6 +12,9 @@ import JanetModel.Lib.FormatProofs
 import JanetModel.Lib.StrKmpCProofs
 import JanetModel.Lib.StrJoinCProofs
 import JanetModel.Lib.StrMiscCProofs
+import JanetModel.Lib.ArrCProofs
+import JanetModel.Lib.BufCProofs
+import JanetModel.Lib.BootProofs
 namespace JanetModel.Props.C17
 open JanetModel.Lib JanetModel.Gen.Lib
 
@@ -336,5 +339,74 @@ theorem mirror_join (parts : List Bytes) (sep : Bytes) (hsep : Len32 sep) (hp : 
 
 example : StrC.split [44] [97, 44, 98, 44, 99] none (some 2) = .ok [[97], [98, 44, 99]] := by decide
 example : StrC.join [[97], [98]] [45, 45] = .ok [97, 45, 45, 98] ∧ StrC.trim [32, 97, 32] trimSet = .ok [97] := by decide
+
+/-! ### ★★ mirrors of array.c / tuple.c (Lib/ArrC.lean) and buffer.c (Lib/BufC.lean) -/
+
+/-- `array/insert` for every `at` (non-int32, negative, out of range) when the new length fits an int32 -/
+theorem mirror_array_insert {α : Type} [Inhabited α] (a : List α) (at_ : Int) (xs : List α)
+    (hlen : (a.length : Int) + (xs.length : Int) ≤ int32Max) :
+    ArrC.insert a at_ xs = R.ofOption (arrayInsert a at_ xs) := ArrC.insert_eq_spec a at_ xs hlen
+
+/-- `array/remove` for every int32 `at` and `n`: the clamp `if (n > count - at) n = count - at` keeps `at + n` and
+    `count - at - n` inside int32 (the pinned tree's `at + n` overflowed for `n = 2147483647`) and the memmove inside the array -/
+theorem mirror_array_remove {α : Type} (a : List α) (at_ : Int) (n : Option Int) (hL : Len32 a) :
+    ArrC.remove a at_ n = R.ofOption (arrayRemove a at_ (n.getD 1)) := ArrC.remove_eq_spec a at_ n hL
+
+/-- `array/slice`, `tuple/slice` -/
+theorem mirror_array_slice {α : Type} [Inhabited α] (l : List α) (st en : Option Int) :
+    ArrC.slice l st en = R.ofOption (slice l st en) := ArrC.slice_eq_spec l st en
+
+/-- `bitloc` and `buffer/bit`, `bit-set`, `bit-clear`, `bit-toggle` with the C's `|=`, `&= ~`, `^=`, `&` on the byte -/
+theorem mirror_bitops (b : Bytes) (x : Int) (hx : in64 x = true) (hb : ∀ c ∈ b, c < 256) :
+    BufC.bitloc b x = R.ofOption (bitloc b x) ∧
+    BufC.bitGet b x = R.ofOption (bitGet b x) ∧ BufC.bitSet b x = R.ofOption (bitSet b x) ∧
+    BufC.bitClear b x = R.ofOption (bitClear b x) ∧ BufC.bitToggle b x = R.ofOption (bitToggle b x) :=
+  ⟨BufC.bitloc_eq_spec b x hx, BufC.bitops_eq_spec b x hx hb⟩
+
+/-- `buffer/fill` (memset) and `buffer/popn` -/
+theorem mirror_buffer_fill_popn (b : Bytes) (v : Int) (hL : Len32 b) :
+    BufC.fill b v = .ok (bufferFill b v) ∧ BufC.popn b v = R.ofOption (bufferPopn b v) :=
+  ⟨BufC.fill_eq_spec b v, BufC.popn_eq_spec b v hL⟩
+
+/-- `buffer/blit`, also of a buffer into itself: offsets, the `length_src < 0` clamp, the INT32_MAX check, growth, copy -/
+theorem mirror_buffer_blit (dest : Bytes) (src : Option Bytes) (ds ss : Option Int) (se : Option (Option Int))
+    (hd : Len32 dest) (hs : ∀ l, src = some l → Len32 l) :
+    BufC.blit dest src ds ss se = R.ofOption (bufferBlit dest src ds ss se) := BufC.blit_eq_spec dest src ds ss se hd hs
+
+/-! ### ★★ boot.janet sequence functions (Lib/Boot.lean: the macro-expanded `next` / `in` loops) -/
+
+/-- `each`-based combinators: `reduce`, `filter`, `map` and `count` over one sequence, `sum`, `product` -/
+theorem boot_each_family {α β : Type} (f : β → α → β) (init : β) (g : α → β) (pred : α → Bool) (ind : List α) (xs : List Int) :
+    Boot.reduce f init ind = .ok (reduce f init ind) ∧ Boot.filter pred ind = .ok (ind.filter pred) ∧
+    Boot.map1 g ind = .ok (ind.map g) ∧ Boot.count1 pred ind = .ok (ind.countP pred) ∧
+    Boot.sum xs = .ok (sumI xs) ∧ Boot.product xs = .ok (productI xs) :=
+  ⟨Boot.reduce_eq_spec f init ind, Boot.filter_eq_spec pred ind, Boot.map1_eq_spec g ind, Boot.count1_eq_spec pred ind,
+   Boot.sum_eq_spec xs, Boot.product_eq_spec xs⟩
+
+/-- `(map f ind ind0)` (map-template branch `map-n 1`) stops at the shorter sequence -/
+theorem boot_map2 {α β γ : Type} (f : α → β → γ) (ind : List α) (ind0 : List β) :
+    Boot.map2 f ind ind0 = .ok (List.zipWith f ind ind0) ∧ (List.zipWith f ind ind0).length = min ind.length ind0.length :=
+  ⟨Boot.map2_eq_spec f ind ind0, by simp⟩
+
+/-- `find-index`, and `take-until` / `take-while` / `drop-until` / `drop-while` built on it -/
+theorem boot_find_index_family {α : Type} (pred : α → Bool) (ind : List α) :
+    Boot.findIndex pred ind = .ok (ind.findIdx? pred) ∧
+    Boot.takeUntil pred ind = .ok (ind.takeWhile (fun x => !pred x)) ∧ Boot.takeWhile pred ind = .ok (takeWhileL pred ind) ∧
+    Boot.dropUntil pred ind = .ok (ind.dropWhile (fun x => !pred x)) ∧ Boot.dropWhile pred ind = .ok (dropWhileL pred ind) :=
+  ⟨Boot.findIndex_eq_spec pred ind, Boot.takeUntil_eq_spec pred ind, Boot.takeWhile_eq_spec pred ind,
+   Boot.dropUntil_eq_spec pred ind, Boot.dropWhile_eq_spec pred ind⟩
+
+/-- `take` / `drop` on indexed and bytes values for EVERY `n`: `take-n-slice` / `drop-n-slice` never pass an out-of-range
+    index to `tuple/slice` / `string/slice` -/
+theorem boot_take_drop {α : Type} (n : Int) (ind : List α) :
+    Boot.take n ind = .ok (takeN n ind) ∧ Boot.drop n ind = .ok (dropN n ind) :=
+  ⟨Boot.take_eq_spec n ind, Boot.drop_eq_spec n ind⟩
+
+/-- `extreme` (and `max`, `min`, `max-of`, `min-of`, all instances of the macro `do-extreme`) -/
+theorem boot_extreme {α : Type} (order : α → α → Bool) (ds : List α) : Boot.extreme order ds = .ok (extreme order ds) :=
+  Boot.extreme_eq_spec order ds
+
+example : ArrC.remove [1, 2, 3] 1 (some 2147483647) = .ok [1] ∧ BufC.bitSet [0] 3 = .ok [8] := by decide
+example : Boot.take (-2) [1, 2, 3] = .ok [2, 3] ∧ Boot.map2 (fun (a b : Nat) => a * b) [1, 2, 3] [4, 5] = .ok [4, 10] := by decide
 
 end JanetModel.Props.C17
